@@ -139,7 +139,7 @@ func r04_1(c *Ctx, rule string) {
 					return
 				}
 				d := c.P.ChanDesc(x.X)
-				if x.CommaOk && strings.HasPrefix(x.Block().Comment, "rangechan") {
+				if rangeLikeRecv(x) {
 					ranges++
 					perFn[name+"/range"]++
 					c.R.OK(rule, fmt.Sprintf("%s/range#%d", name, perFn[name+"/range"]), c.pos(x), "range over "+d+" (close pairing decided by R04.2)")
@@ -166,7 +166,7 @@ func r04_2(c *Ctx, rule string) {
 		fn := fn
 		eng.Instrs(fn, func(in ssa.Instruction) {
 			u, ok := in.(*ssa.UnOp)
-			if !ok || u.Op != token.ARROW || !u.CommaOk || !strings.HasPrefix(u.Block().Comment, "rangechan") {
+			if !ok || u.Op != token.ARROW || !rangeLikeRecv(u) {
 				return
 			}
 			d := c.P.ChanDesc(u.X)
@@ -1203,4 +1203,40 @@ var errWrapNames = map[string]bool{
 	"github.com/pkg/errors.Wrap": true, "github.com/pkg/errors.Wrapf": true, "github.com/pkg/errors.WithStack": true,
 	"github.com/pkg/errors.WithMessage": true, "github.com/pkg/errors.Errorf": true, "github.com/pkg/errors.New": true,
 	"errors.New": true, "fmt.Errorf": true, "(context.Context).Err": true,
+}
+
+// rangeLikeRecv: a receive that is ended by the channel being closed:
+// `for v := range ch` or its spelling `v, ok := <-ch; if !ok { break }`
+// inside a loop (go/ssa lowers the former to the latter).
+func rangeLikeRecv(u *ssa.UnOp) bool {
+	if u.Op != token.ARROW || !u.CommaOk {
+		return false
+	}
+	if strings.HasPrefix(u.Block().Comment, "rangechan") {
+		return true
+	}
+	if !eng.InCycle(u.Block()) {
+		return false
+	}
+	for _, r := range eng.Referrers(u) {
+		e, ok := r.(*ssa.Extract)
+		if !ok || e.Index != 1 {
+			continue
+		}
+		for _, r2 := range eng.Referrers(e) {
+			switch y := r2.(type) {
+			case *ssa.If:
+				return true
+			case *ssa.UnOp:
+				if y.Op == token.NOT {
+					for _, r3 := range eng.Referrers(y) {
+						if _, isIf := r3.(*ssa.If); isIf {
+							return true
+						}
+					}
+				}
+			}
+		}
+	}
+	return false
 }
